@@ -5,5 +5,5 @@ TIER=${1:-quick}
 shift
 for p in $(python3 -c "import json;print(' '.join(c['property_id'] for c in json.load(open('MANIFEST.json'))['checks']))"); do
   ./vf check $p --tier $TIER "$@" 2>&1 | grep -E "^\[|VIOLATION|CHECKER-ERROR" | cut -c1-220
-  echo "   exit=$?"
+  echo "   exit=${PIPESTATUS[0]}"
 done
